@@ -38,6 +38,13 @@ def splitBar (w : List String) : List (List String) :=
 def cxs : List String → List (Cx Rat)
   | a :: b :: rest => ⟨rq a, rq b⟩ :: cxs rest
   | _ => []
+/-- complex floats as pairs of bit patterns -/
+def cxfs : List String → List (Cx Float)
+  | a :: b :: rest => ⟨fb a, fb b⟩ :: cxfs rest
+  | _ => []
+/-- `np.abs` of a complex double (numpy uses `hypot`; agreement is within an ulp or two away from over/underflow) -/
+def cabsF (z : Cx Float) : Float := Float.sqrt (z.re * z.re + z.im * z.im)
+
 def cxStr (z : Cx Rat) : String := s!"{ratStr z.re} {ratStr z.im}"
 
 def rowsStr {α} (f : α → String) (rows : List (List α)) : String :=
@@ -361,13 +368,24 @@ def handle (w : List String) : String :=
   -- richfact eps rule… : fact = max(12.7062047361747*sqrt(sum |rule|^2), eps*10)
   | "richfact" :: eps :: rule =>
     toHex (richFact (12.7062047361747 : Float) (fb eps * 10.0) (Float.sqrt (sumSq (floats rule))))
+  -- richfactc eps re im re im … : the same for complex weights
+  | "richfactc" :: eps :: rule =>
+    toHex (richFact (12.7062047361747 : Float) (fb eps * 10.0) (Float.sqrt (sumSqN cabsF (cxfs rule))))
   -- richerr eps fact | new… | old… | steps…   (Float; the branch is chosen as _estimate_error does)
   | "richerr" :: eps :: fact :: rest =>
     match splitBar rest with
     | [_, new, old, steps] =>
       let new := floats new; let old := floats old; let steps := floats steps
-      if old.length < 2 then joinSp ((richErrShort (fb eps) (fb fact) new steps).map toHex)
-      else joinSp ((richErrMain (fb eps) 10.0 (fb fact) new old).map toHex)
+      if old.length < 2 then joinSp ((richErrShort (Num.abs : Float → Float) (fb eps) (fb fact) new steps).map toHex)
+      else joinSp ((richErrMain (Num.abs : Float → Float) (fb eps) 10.0 (fb fact) new old).map toHex)
+    | _ => "bad-op"
+  -- richerrc: complex sequence and steps (pairs), real estimates
+  | "richerrc" :: eps :: fact :: rest =>
+    match splitBar rest with
+    | [_, new, old, steps] =>
+      let new := cxfs new; let old := cxfs old; let steps := cxfs steps
+      if old.length < 2 then joinSp ((richErrShort cabsF (fb eps) (fb fact) new steps).map toHex)
+      else joinSp ((richErrMain cabsF (fb eps) 10.0 (fb fact) new old).map toHex)
     | _ => "bad-op"
   -- dea3 <eps> <tiny> e0 e1 e2  (Float, bit patterns)
   | ["dea3", eps, tiny, a, b, c] =>
